@@ -3,6 +3,7 @@
 package main
 
 import (
+	"fmt"
 	"encoding/binary"
 
 	"github.com/edutko/decipher/internal/openpgp/packet"
@@ -13,6 +14,9 @@ import (
 
 func init() {
 	ops["pgpsig"] = func(a []string) string { return packet.VerifParseSignature(unhx(a[0])) }
+	// pgpsigx <body> <created> <flags|-> <key lifetime|-> <issuer|->: a packet the generator built from a list of subpackets
+	// whose meaning it knows (RFC 4880 5.2.3: what counts is in the hashed area; the issuer may stand in either)
+	ops["pgpsigx"] = func(a []string) string { return packet.VerifParseSignature(unhx(a[0])) }
 	ops["pgpsig3"] = func(a []string) string { return packet.VerifParseSignatureV3(unhx(a[0])) }
 }
 
@@ -217,6 +221,69 @@ func genPgpSig(tier string, r *rng) {
 			m := append([]byte{}, full...)
 			m[r.intn(len(m))] = byte(r.next())
 			emit("pgpsig3", hx(m))
+		}
+	}
+	// 6c. well-formed packets with generator ground truth: the fields a report shows come from the hashed area only;
+	// unknown non-critical subpackets of every size and length form (notations of 9,000 bytes …) change nothing
+	{
+		type sp struct {
+			typ  byte
+			data []byte
+			form int
+		}
+		build := func(hashed, unhashed []sp) {
+			var h, u []byte
+			created, flags, life, issuer := "-", "-", "-", "-"
+			fl := -1
+			for _, x := range hashed {
+				h = append(h, sub(x.typ, false, x.data, x.form)...)
+				switch x.typ {
+				case 2:
+					created = fmt.Sprint(binary.BigEndian.Uint32(x.data))
+				case 27:
+					if fl < 0 {
+						fl = 0
+					}
+					fl |= int(x.data[0]) & 0x2f
+				case 9:
+					life = fmt.Sprint(binary.BigEndian.Uint32(x.data))
+				case 16:
+					issuer = fmt.Sprintf("%016x", binary.BigEndian.Uint64(x.data))
+				}
+			}
+			for _, x := range unhashed {
+				u = append(u, sub(x.typ, false, x.data, x.form)...)
+				if x.typ == 16 {
+					issuer = fmt.Sprintf("%016x", binary.BigEndian.Uint64(x.data))
+				}
+			}
+			if fl >= 0 {
+				flags = fmt.Sprint(fl)
+			}
+			if len(h) > 65535 || len(u) > 65535 {
+				return
+			}
+			emit("pgpsigx", hx(sigBody(0x13, 22, 8, h, u, []byte{1, 2}, mp2)), created, flags, life, issuer)
+		}
+		ctS := sp{2, be32b(1700000000), 0}
+		fill := func(n int, form int) sp { return sp{20, r.bytes(n), form} }
+		for _, n := range []int{0, 100, 190, 191, 192, 5000, 8382, 8383, 8384, 9000, 16000, 16318, 16319, 16320, 20000} {
+			for _, form := range []int{0, 2, 5} {
+				if form == 2 && (n+1 < 192 || n+1 > 16319) {
+					continue
+				}
+				build([]sp{ctS, fill(n, form), {27, []byte{3}, 0}, {16, be64b(0x00A1B2C3D4E5F607), 0}}, nil)
+				build([]sp{ctS, {27, []byte{3}, 0}}, []sp{fill(n, form), {16, be64b(0x00A1B2C3D4E5F607), 0}})
+			}
+		}
+		// what stands in the unhashed area is not signed: it must not reach usage, expiry or creation
+		for _, uf := range []byte{0x2c, 0xff, 0x01, 0x20} {
+			build([]sp{ctS, {27, []byte{3}, 0}, {9, be32b(86400), 0}}, []sp{{27, []byte{uf}, 0}, {16, be64b(7), 0}})
+			build([]sp{ctS}, []sp{{27, []byte{uf}, 0}, {9, be32b(12345), 0}, {3, be32b(99), 0}, {16, be64b(7), 0}})
+			build([]sp{ctS, {16, be64b(9), 0}}, []sp{{25, []byte{1}, 0}, {11, []byte{9}, 0}, {21, []byte{8}, 0}, {22, []byte{1}, 0}, {29, []byte{1, 'x'}, 0}, {27, []byte{uf}, 0}})
+		}
+		for _, f := range []byte{0, 1, 2, 4, 8, 0x10, 0x20, 0x40, 0x80, 0x2f, 0xff} {
+			build([]sp{ctS, {27, []byte{f}, 0}, {27, []byte{f >> 1, 0xff}, 0}}, nil)
 		}
 	}
 	// 7. random areas built from random subpackets
